@@ -695,44 +695,23 @@ def typeConditionErrors (S : Schema) (tc : String) (p : Pos) : List Err :=
     if k.isComposite then [] else [newError p "fragments may only be defined on objects, interfaces, and unions"]
 
 mutual
-/-- Second half of validateFragmentDeclarations: inline type conditions, and the used names. -/
-def declSel (S : Schema) : Selection → List Err × List String
-  | .field _ _ _ _ _ sel =>
-    (match sel with
-     | none => ([], [])
-     | some ss => declSet S ss)
-  | .spread n _ _ _ => ([], [n])
-  | .inline tc _ ss _ =>
-    let e := match tc with
-      | some (t, p) => typeConditionErrors S t p
-      | none => []
-    let (e', u) := declSet S ss
-    (e ++ e', u)
-def declSet (S : Schema) : SelSet → List Err × List String
-  | .mk sels _ => declSels S sels
-def declSels (S : Schema) : List Selection → List Err × List String
-  | [] => ([], [])
-  | s :: rest =>
-    let (a, ua) := declSel S s
-    let (b, ub) := declSels S rest
-    (a ++ b, ua ++ ub)
+/-- The `ast.InlineFragment` case of the inspection in validateFragmentDeclarations
+    (validate_fragments.go:44-54): `validateTypeCondition` on every inline type condition. -/
+def inlineCondSel (S : Schema) : Selection → List Err
+  | .field _ _ _ _ _ none => []
+  | .field _ _ _ _ _ (some ss) => inlineCondSet S ss
+  | .spread .. => []
+  | .inline none _ ss _ => inlineCondSet S ss
+  | .inline (some (t, p)) _ ss _ => typeConditionErrors S t p ++ inlineCondSet S ss
+def inlineCondSet (S : Schema) : SelSet → List Err
+  | .mk sels _ => inlineCondSels S sels
+def inlineCondSels (S : Schema) : List Selection → List Err
+  | [] => []
+  | s :: rest => inlineCondSel S s ++ inlineCondSels S rest
 end
 
-def validateFragmentDeclarations (S : Schema) (D : Document) : List Err :=
-  let frags := fragsOf D
-  -- first loop: duplicate names and the definitions' type conditions
-  let (e1, _) := frags.foldl (fun (st : List Err × List String) f =>
-    let dup := if st.2.contains f.name then [newError f.npos "a fragment with this name already exists"] else []
-    (st.1 ++ dup ++ typeConditionErrors S f.tc f.tcpos, if st.2.contains f.name then st.2 else st.2 ++ [f.name])) ([], [])
-  -- inspection: inline type conditions, used fragment names
-  let (e2, used) := D.foldl (fun (st : List Err × List String) d =>
-    let (e, u) := declSet S (defSel d)
-    (st.1 ++ e, st.2 ++ u)) ([], [])
-  -- unused fragments: one entry per name, the first definition
-  let firsts := frags.foldl (fun (acc : List FragInfo) f => if acc.any (fun g => g.name = f.name) then acc else acc ++ [f]) []
-  e1 ++ e2 ++ firsts.flatMap fun f => if used.contains f.name then [] else [newError f.pos "unused fragment"]
-
 mutual
+/-- Names of the fragments spread inside a selection (at any depth), in document order. -/
 def spreadNamesSel : Selection → List String
   | .field _ _ _ _ _ none => []
   | .field _ _ _ _ _ (some ss) => spreadNamesSet ss
@@ -744,6 +723,30 @@ def spreadNamesSels : List Selection → List String
   | [] => []
   | s :: rest => spreadNamesSel s ++ spreadNamesSels rest
 end
+
+/-- The first loop of validateFragmentDeclarations (validate_fragments.go:32-41): duplicate names
+    and the definitions' type conditions; `seen` are the keys of `fragmentsByName`. -/
+def fragDeclLoop (S : Schema) : List String → List FragInfo → List Err
+  | _, [] => []
+  | seen, f :: rest =>
+    (if seen.contains f.name then [newError f.npos "a fragment with this name already exists"] else []) ++
+    typeConditionErrors S f.tc f.tcpos ++
+    fragDeclLoop S (if seen.contains f.name then seen else seen ++ [f.name]) rest
+
+/-- The values of `fragmentsByName` after that loop: the first definition of every name. -/
+def firstDefs : List String → List FragInfo → List FragInfo
+  | _, [] => []
+  | seen, f :: rest =>
+    if seen.contains f.name then firstDefs seen rest else f :: firstDefs (seen ++ [f.name]) rest
+
+/-- `usedFragments`: every spread anywhere in the document. -/
+def usedFragments (D : Document) : List String := D.flatMap fun d => spreadNamesSet (defSel d)
+
+def validateFragmentDeclarations (S : Schema) (D : Document) : List Err :=
+  fragDeclLoop S [] (fragsOf D) ++
+  D.flatMap (fun d => inlineCondSet S (defSel d)) ++
+  (firstDefs [] (fragsOf D)).flatMap fun f =>
+    if (usedFragments D).contains f.name then [] else [newError f.pos "unused fragment"]
 
 def dedup (xs : List String) : List String :=
   xs.foldl (fun acc x => if acc.contains x then acc else acc ++ [x]) []
